@@ -39,7 +39,24 @@ impl Opts {
     }
 }
 
+/// Debugging aid: `HS_LOG=1` prints the node crates' `log` output to stderr.
+struct StderrLog;
+impl log::Log for StderrLog {
+    fn enabled(&self, _: &log::Metadata) -> bool {
+        true
+    }
+    fn log(&self, r: &log::Record) {
+        eprintln!("[{}] {}: {}", r.level(), r.target(), r.args());
+    }
+    fn flush(&self) {}
+}
+
 fn main() {
+    if std::env::var("HS_LOG").is_ok() {
+        static LOGGER: StderrLog = StderrLog;
+        let _ = log::set_logger(&LOGGER);
+        log::set_max_level(log::LevelFilter::Debug);
+    }
     let args: Vec<String> = std::env::args().collect();
     if args.len() < 2 {
         eprintln!("usage: hsverif <engine> [--prop C] [--tier T] [--seed N] [--out F] [--replay F]");
